@@ -28,15 +28,17 @@ import (
 func init() {
 	register(&Prop{
 		ID: "C10", Level: "fault_enumeration",
-		Rule:        "enumerated fault plans: content length L (grid around 2048/32768/65536 and 100000-150000) x API (Set, SetReader, Create+Write+Close) x client (inline, gRPC) x fault: source reader fails at offset p in {0,1,2047,2048,2049,L/2,L-1} (error alone and (n>0,err)); gRPC (and, for the cancellation, the inline client too): caller's context cancelled after p bytes were consumed; gRPC: TCP connection cut by a harness-side proxy after p request bytes; no-space at the k-th write of a content file, full (0 bytes) or partial (j bytes really written, then ENOSPC), on 1-3 roots whose reported free space is supplied through the disk-usage hook in the patterns {faulty root has least free, faulty root has most free, all roots faulty, two faulty + one healthy with most free}; the same on a real 100 KiB tmpfs root (real ENOSPC, real partial writes) when mounting is permitted. Role grpccut repeats the cuts that hit a stream while it is being set up (first request byte, first few hundred bytes, or all connections closed from another goroutine within microseconds of the call) and the cancellations that race with the completion of the upload (context cancelled when the source is exhausted, or up to 2048 bytes earlier), hundreds of times per case: a stream the server has not seen is re-created and replayed by gRPC, so a client that completes it after a failed send stores a truncated value. Role opfault injects one failure of mkdir / file creation (first write into fresh storage, the write that replaces a full directory, an ordinary write): usual oracle, and the writes that follow without a fault must succeed. A concurrent reader polls Get(key) during the faulty write. Oracle: error => an independent client reads the previous value (or ErrNotFound) during and after, class ErrNoFreeSpace where the statement says so; success => reads exactly the source bytes; with a healthy root reporting more free space than every faulty one the write must succeed. evaluations = plans executed; distinct_nontrivial = distinct (client, API, fault kind, offset class, root pattern, outcome) tuples",
+		Rule:        "enumerated fault plans: content length L (grid around 2048/32768/65536 and 100000-150000) x API (Set, SetReader, Create+Write+Close) x client (inline, gRPC) x fault: source reader fails at offset p in {0,1,2047,2048,2049,L/2,L-1} (error alone and (n>0,err)); gRPC (and, for the cancellation, the inline client too): caller's context cancelled after p bytes were consumed; gRPC: TCP connection cut by a harness-side proxy after p request bytes; no-space at the k-th write of a content file, full (0 bytes) or partial (j bytes really written, then ENOSPC), on 1-3 roots whose reported free space is supplied through the disk-usage hook in the patterns {faulty root has least free, faulty root has most free, all roots faulty, two faulty + one healthy with most free}; the same on a real 100 KiB tmpfs root (real ENOSPC, real partial writes) when mounting is permitted. Role grpccut repeats the cuts that hit a stream while it is being set up (first request byte, first few hundred bytes, or all connections closed from another goroutine within microseconds of the call) and the cancellations that race with the completion of the upload (context cancelled when the source is exhausted, or up to 2048 bytes earlier), hundreds of times per case: a stream the server has not seen is re-created and replayed by gRPC, so a client that completes it after a failed send stores a truncated value. Role opfault injects one failure of mkdir / file creation (first write into fresh storage, the write that replaces a full directory, an ordinary write): usual oracle, and the writes that follow without a fault must succeed. Role writeerr makes the k-th write of a content file fail with an error other than no-space (EIO, EFBIG, EDQUOT, EROFS; nothing or a part of the chunk really written), on 1-3 roots, inline and through the server: whatever the store does about it, an error must leave no trace and a success must be complete. Role metafault makes the j-th write to the metadata store (content record, version record; direct, or inside a metadata transaction) issued by one Set / SetReader / Create-Close / Delete fail, for every j until the call issues no more: the failed call must be invisible to the autocommit reader, to a long-lived ReadUncommitted transaction, to GetKeys, and after a reopen. A concurrent reader polls Get(key) during the faulty write. Oracle: error => an independent client reads the previous value (or ErrNotFound) during and after, class ErrNoFreeSpace where the statement says so; success => reads exactly the source bytes; with a healthy root reporting more free space than every faulty one the write must succeed. evaluations = plans executed; distinct_nontrivial = distinct (client, API, fault kind, offset class, root pattern, outcome) tuples",
 		Assumptions: []string{"hook-injected ENOSPC models real ENOSPC (cross-checked on a real tmpfs root when mounting is permitted)"},
 		Roles: map[string]Role{
-			"reader":  {N: func(t string) int { return tierN(t, 12, 64) }, Case: c10Reader},
-			"nospace": {N: func(t string) int { return tierN(t, 12, 96) }, Case: c10NoSpace},
-			"grpc":    {N: func(t string) int { return tierN(t, 8, 48) }, Case: c10Grpc},
-			"grpccut": {N: func(t string) int { return tierN(t, 16, 96) }, Case: c10GrpcCut},
-			"opfault": {N: func(t string) int { return tierN(t, 8, 64) }, Case: c10OpFault},
-			"tmpfs":   {N: func(t string) int { return tierN(t, 2, 8) }, Case: c10Tmpfs, Procs: 2},
+			"reader":    {N: func(t string) int { return tierN(t, 12, 64) }, Case: c10Reader},
+			"nospace":   {N: func(t string) int { return tierN(t, 12, 96) }, Case: c10NoSpace},
+			"grpc":      {N: func(t string) int { return tierN(t, 8, 48) }, Case: c10Grpc},
+			"grpccut":   {N: func(t string) int { return tierN(t, 16, 96) }, Case: c10GrpcCut},
+			"opfault":   {N: func(t string) int { return tierN(t, 8, 64) }, Case: c10OpFault},
+			"writeerr":  {N: func(t string) int { return tierN(t, 8, 64) }, Case: c10WriteErr},
+			"metafault": {N: func(t string) int { return tierN(t, 8, 64) }, Case: c10MetaFault},
+			"tmpfs":     {N: func(t string) int { return tierN(t, 2, 8) }, Case: c10Tmpfs, Procs: 2},
 		},
 	})
 }
@@ -883,6 +885,278 @@ func c10OpFault(tier string, seed int64, idx int, scratch string) rt.CaseResult 
 	c.Count("op_faults_fired", fired.Load())
 	if idx < 1 {
 		c.Sample = map[string]any{"role": "opfault", "faults_fired": fired.Load()}
+	}
+	return c
+}
+
+// c10WriteErr: the k-th write of a content file fails with an error that is not "no space".
+func c10WriteErr(tier string, seed int64, idx int, scratch string) rt.CaseResult {
+	var c rt.CaseResult
+	rng := seqrun.Rng(seed, "C10w", idx)
+	nroots := 1 + idx%3
+	mode := dbx.Inline
+	if idx%4 == 3 {
+		mode = dbx.Grpc
+	}
+	env, err := dbx.Open(dbx.Options{Mode: mode, Dir: filepath.Join(scratch, "db"), Roots: nroots})
+	if err != nil {
+		c.Violate("open-failed", err.Error(), nil)
+		return c
+	}
+	defer env.Close()
+	defer verif.SetWriteFault(nil)
+	x := &c10Ctx{c: &c, env: env, verify: env.DB, seed: seed}
+	errs := []struct {
+		name string
+		e    syscall.Errno
+	}{{"EIO", syscall.EIO}, {"EFBIG", syscall.EFBIG}, {"EDQUOT", syscall.EDQUOT}, {"EROFS", syscall.EROFS}}
+	plans := 0
+	for _, l := range []int{1, 2048, 40000, 70000, 150000, 300000} {
+		for _, partial := range []int{0, 1, 4096, 30000} {
+			for _, api := range []string{"set", "setreader", "create"} {
+				if rng.Intn(tierN(tier, 3, 1)) != 0 {
+					continue
+				}
+				rt.Beat()
+				plans++
+				ek := errs[rng.Intn(len(errs))]
+				chunks := (l + 32767) / 32768
+				k := 1 + rng.Intn(chunks)
+				if partial >= l || (k == chunks && partial >= l-(chunks-1)*32768) {
+					partial = 0
+				}
+				once := rng.Intn(2) == 0 // the fault hits one file only / every file written by this call
+				var mu sync.Mutex
+				writes := map[string]int{}
+				fired := 0
+				fault := func(path string, p []byte) (int, error, bool) {
+					mu.Lock()
+					defer mu.Unlock()
+					writes[path]++
+					if writes[path] == k && (!once || fired == 0) {
+						fired++
+						j := partial
+						if j > len(p) {
+							j = len(p) / 2
+						}
+						return j, &os.PathError{Op: "write", Path: path, Err: ek.e}, true
+					}
+					return 0, nil, false
+				}
+				key := fmt.Sprintf("k%d", plans%3)
+				hadPrev := plans%2 == 0
+				var prev []byte
+				verif.SetWriteFault(nil)
+				if hadPrev {
+					prev = seqrun.Content(fmt.Sprintf("w%d-p%d", idx, plans), 64)
+					env.DB.Set(ctxBg, key, prev)
+				} else {
+					env.DB.Delete(ctxBg, key)
+				}
+				verif.SetWriteFault(fault)
+				src := seqrun.Content(fmt.Sprintf("w%d-s%d", idx, plans), l)
+				var allowed [][]byte
+				if hadPrev {
+					allowed = [][]byte{prev}
+				}
+				allowed = append(allowed, src)
+				pl := startPoller(env.DB, key, allowed, !hadPrev)
+				werr := doWrite(env.DB, ctxBg, api, key, bytes.NewReader(src), src)
+				bad := pl.finish()
+				verif.SetWriteFault(nil)
+				mu.Lock()
+				nf := fired
+				mu.Unlock()
+				plan := map[string]any{"mode": modeName(mode), "api": api, "fault": "write-error-" + ek.name, "len": l, "kth_write": k, "partial_bytes": partial, "roots": nroots, "once": once, "fired": nf, "had_previous": hadPrev, "seed": seed}
+				c.Evals++
+				if !x.judge(plan, key, werr, src, prev, hadPrev, nil, "", bad) {
+					return c
+				}
+				// the store must be usable afterwards
+				after := seqrun.Content(fmt.Sprintf("w%d-a%d", idx, plans), 100)
+				if err := env.DB.Set(ctxBg, key, after); err != nil {
+					c.Violate("write-fails-after-the-fault-is-gone fault=write-error", "a Set without any fault failed after an earlier write had hit "+ek.name+": "+err.Error(), plan)
+					return c
+				}
+				if b, err := env.DB.Get(ctxBg, key); err != nil || !bytes.Equal(b, after) {
+					c.Violate("read-wrong-after-the-fault-is-gone fault=write-error", "the value written after the fault is not what is read", plan)
+					return c
+				}
+				c.AddDistinct(fmt.Sprintf("%s/%s/write-error/%s/partial=%v/once=%v/ok=%v", modeName(mode), api, ek.name, partial > 0, once, werr == nil))
+				c.Count("plans_fault_fired", b2i(nf > 0))
+			}
+		}
+	}
+	if idx < 1 {
+		c.Sample = map[string]any{"plan": map[string]any{"fault": "EIO/EFBIG/EDQUOT/EROFS at the k-th write, nothing or part of the chunk written", "roots": nroots}}
+	}
+	return c
+}
+
+// metaFault arms a fault function that fails the j-th write to the metadata store and reports
+// whether it fired.
+func armMetaFault(j int, ops map[string]bool) (fired func() bool) {
+	var mu sync.Mutex
+	n, hit := 0, false
+	verif.SetOpFault(func(op, path string) error {
+		if !ops[op] {
+			return nil
+		}
+		mu.Lock()
+		defer mu.Unlock()
+		n++
+		if n == j {
+			hit = true
+			return fmt.Errorf("injected failure of metadata write %d (%s %q)", j, op, firstWords(path, 1))
+		}
+		return nil
+	})
+	return func() bool { mu.Lock(); defer mu.Unlock(); return hit }
+}
+
+var metaWriteOps = map[string]bool{"badger.set": true, "badger.txn": true, "badger.txn.set": true, "badger.txn.delete": true}
+
+// c10MetaFault: the j-th metadata write of one autocommit write fails.
+func c10MetaFault(tier string, seed int64, idx int, scratch string) rt.CaseResult {
+	var c rt.CaseResult
+	rng := seqrun.Rng(seed, "C10m", idx)
+	mode := dbx.Inline
+	if idx%3 == 2 {
+		mode = dbx.Grpc
+	}
+	env, err := dbx.Open(dbx.Options{Mode: mode, Dir: filepath.Join(scratch, "db"), Roots: 1 + idx%2})
+	if err != nil {
+		c.Violate("open-failed", err.Error(), nil)
+		return c
+	}
+	defer func() { env.Close() }()
+	defer verif.SetOpFault(nil)
+	x := &c10Ctx{c: &c, env: env, verify: env.DB, seed: seed}
+	ru, err := env.DB.Begin(ctxBg, fs_db.IsoLevelReadUncommitted)
+	if err != nil {
+		c.Violate("begin-failed", err.Error(), nil)
+		return c
+	}
+	expect := map[string][]byte{} // key -> value the key must have (absent: not found)
+	sameAs := func(b []byte, gerr error, want []byte, has bool) bool {
+		if !has {
+			return seqrun.Class(gerr) == refmodel.NotFound
+		}
+		return gerr == nil && bytes.Equal(b, want)
+	}
+	plans := 0
+	for _, api := range []string{"set", "setreader", "create", "delete"} {
+		for _, hadPrev := range []bool{false, true} {
+			for j := 1; j <= 8; j++ {
+				rt.Beat()
+				plans++
+				key := fmt.Sprintf("m%d", plans%4)
+				verif.SetOpFault(nil)
+				var prev []byte
+				if hadPrev {
+					prev = seqrun.Content(fmt.Sprintf("m%d-p%d", idx, plans), 40+rng.Intn(3000))
+					if err := env.DB.Set(ctxBg, key, prev); err != nil {
+						c.Violate("setup-write-failed", err.Error(), nil)
+						return c
+					}
+					expect[key] = prev
+				} else {
+					env.DB.Delete(ctxBg, key)
+					delete(expect, key)
+				}
+				l := []int{1, 2048, 40000, 70000}[rng.Intn(4)]
+				src := seqrun.Content(fmt.Sprintf("m%d-s%d", idx, plans), l)
+				var allowed [][]byte
+				if hadPrev {
+					allowed = [][]byte{prev}
+				}
+				if api != "delete" {
+					allowed = append(allowed, src)
+				}
+				pl := startPoller(env.DB, key, allowed, !hadPrev || api == "delete")
+				fired := armMetaFault(j, metaWriteOps)
+				var werr error
+				if api == "delete" {
+					werr = env.DB.Delete(ctxBg, key)
+				} else {
+					werr = doWrite(env.DB, ctxBg, api, key, bytes.NewReader(src), src)
+				}
+				verif.SetOpFault(nil)
+				bad := pl.finish()
+				if !fired() {
+					// the call issues fewer than j metadata writes: it ran without a fault
+					if werr != nil {
+						c.Violate("write-failed-without-fault role=metafault api="+api, werr.Error(), map[string]any{"api": api, "j": j})
+						return c
+					}
+					if api == "delete" {
+						delete(expect, key)
+					} else {
+						expect[key] = src
+					}
+					break
+				}
+				plan := map[string]any{"mode": modeName(mode), "api": api, "fault": "metadata-write", "jth_metadata_write": j, "len": l, "had_previous": hadPrev, "seed": seed, "case": idx}
+				c.Evals++
+				c.Count("plans_fault_fired", 1)
+				if api == "delete" {
+					b, gerr := env.DB.Get(ctxBg, key)
+					switch {
+					case bad != nil:
+						c.Violate("partial-or-foreign-content-visible-during-write mode="+modeName(mode)+" api=delete fault=metadata-write", *bad, plan)
+						return c
+					case werr != nil && !sameAs(b, gerr, prev, hadPrev):
+						c.Violate("failed-write-left-trace mode="+modeName(mode)+" api=delete fault=metadata-write", fmt.Sprintf("Delete failed (%v) but the key now reads %s (%v)", werr, seqrun.Describe(b), gerr), plan)
+						return c
+					case werr == nil && seqrun.Class(gerr) != refmodel.NotFound:
+						c.Violate("successful-write-incomplete mode="+modeName(mode)+" api=delete fault=metadata-write", fmt.Sprintf("Delete returned nil but the key reads %s (%v)", seqrun.Describe(b), gerr), plan)
+						return c
+					}
+					if werr == nil {
+						delete(expect, key)
+					}
+				} else {
+					if !x.judge(plan, key, werr, src, prev, hadPrev, nil, "", bad) {
+						return c
+					}
+					if werr == nil {
+						expect[key] = src
+					}
+				}
+				// the ReadUncommitted transaction and GetKeys see the same as the autocommit reader
+				want, has := expect[key]
+				if b, gerr := ru.Get(ctxBg, key); !sameAs(b, gerr, want, has) {
+					c.Violate("failed-write-left-trace reader=read-uncommitted mode="+modeName(mode)+" api="+api+" fault=metadata-write", fmt.Sprintf("after the call (%v) a ReadUncommitted transaction reads %s (%v)", werr, seqrun.Describe(b), gerr), plan)
+					return c
+				}
+				keys, kerr := env.DB.GetKeys(ctxBg)
+				listed := false
+				for _, k := range keys {
+					listed = listed || k == key
+				}
+				if kerr != nil || listed != has {
+					c.Violate("failed-write-left-trace reader=getkeys mode="+modeName(mode)+" api="+api+" fault=metadata-write", fmt.Sprintf("after the call (%v) GetKeys lists the key: %v, it has a value: %v (%v)", werr, listed, has, kerr), plan)
+					return c
+				}
+				c.AddDistinct(fmt.Sprintf("%s/%s/metadata-write/j=%d/prev=%v/ok=%v", modeName(mode), api, j, hadPrev, werr == nil))
+			}
+		}
+	}
+	ru.Rollback(ctxBg)
+	if err := env.Reopen(); err != nil {
+		c.Violate("reopen-failed role=metafault", err.Error(), nil)
+		return c
+	}
+	for i := 0; i < 4; i++ {
+		key := fmt.Sprintf("m%d", i)
+		want, has := expect[key]
+		if b, gerr := env.DB.Get(ctxBg, key); !sameAs(b, gerr, want, has) {
+			c.Violate("failed-write-left-trace after-reopen fault=metadata-write", fmt.Sprintf("after the reopen %q reads %s (%v), before it read %s (has a value: %v)", key, seqrun.Describe(b), gerr, seqrun.Describe(want), has), map[string]any{"seed": seed, "case": idx})
+			return c
+		}
+	}
+	if idx < 1 {
+		c.Sample = map[string]any{"plan": map[string]any{"fault": "the j-th metadata write of the call fails", "apis": "set setreader create delete"}}
 	}
 	return c
 }
